@@ -1,0 +1,13 @@
+//go:build !verif
+
+package websocket
+
+// vhook is a no-op unless built with -tags verif (see verif_hook_on.go).
+func vhook(ev int, c *Conn, m *mu, a, b int) {}
+
+func b2i(b bool) int {
+	if b {
+		return 1
+	}
+	return 0
+}
